@@ -445,8 +445,16 @@ func (u *upstream) serveBolt(c net.Conn, id int64) {
 				if a.unk {
 					rid = f.ID + 100000
 				}
+				rh := [][2][]byte{{[]byte("x-verif-token"), []byte(token)}, {[]byte("x-verif-attempt"), []byte(strconv.Itoa(attempt))}, {[]byte("x-verif-upstream"), []byte(u.Name)}}
+				if extra := hm["x-verif-resp-headers"]; extra != "" {
+					for _, kv := range strings.Split(extra, ";") {
+						if p := strings.SplitN(kv, "=", 2); len(p) == 2 {
+							rh = append(rh, [2][]byte{[]byte(p[0]), []byte(p[1])})
+						}
+					}
+				}
 				resp := buildBolt(boltFields{V2: f.V2, Ver1: f.Ver1, CmdType: 0, CmdCode: 2, Ver: f.Ver, ID: rid, Codec: f.Codec, TimeoutOrS: status,
-					Class: []byte("com.verif.Resp"), HeaderBlk: boltHeaderBlock([][2][]byte{{[]byte("x-verif-token"), []byte(token)}, {[]byte("x-verif-attempt"), []byte(strconv.Itoa(attempt))}, {[]byte("x-verif-upstream"), []byte(u.Name)}}), Content: rb})
+					Class: []byte("com.verif.Resp"), HeaderBlk: boltHeaderBlock(rh), Content: rb})
 				wmu.Lock()
 				if a.final == "half" {
 					_, _ = c.Write(resp[:len(resp)/2])
@@ -514,6 +522,13 @@ func (u *upstream) serveHTTP2(c net.Conn, id int64) {
 		w.Header().Set("X-Verif-Attempt", strconv.Itoa(attempt))
 		w.Header().Set("X-Verif-Upstream", u.Name)
 		w.Header().Set("X-Verif-Echo-Path", req.RequestURI)
+		if extra := req.Header.Get("X-Verif-Resp-Headers"); extra != "" {
+			for _, kv := range strings.Split(extra, ";") {
+				if p := strings.SplitN(kv, "=", 2); len(p) == 2 {
+					w.Header().Set(p[0], p[1])
+				}
+			}
+		}
 		w.Header().Set("Content-Length", strconv.Itoa(len(rb)))
 		w.WriteHeader(a.status)
 		if a.final == "half" {
@@ -530,15 +545,16 @@ func (u *upstream) serveHTTP2(c net.Conn, id int64) {
 // ------------------------------------------------------------------------------------------------ clients
 
 type reqSpec struct {
-	Token   string
-	Plan    string
-	Method  string
-	Path    string
-	Host    string
-	Headers [][2]string
-	Body    []byte
-	Oneway  bool
-	Timeout time.Duration // client-side watchdog
+	Token       string
+	Plan        string
+	Method      string
+	Path        string
+	Host        string
+	Headers     [][2]string
+	Body        []byte
+	Oneway      bool
+	Timeout     time.Duration // client-side watchdog
+	BoltTimeout int32         // bolt frame timeout field (protocol-supplied timeout, ms)
 }
 
 func parseRespBody(b []byte) (token, up string, attempt int) {
@@ -763,7 +779,7 @@ func (b *boltClient) do(r reqSpec) clEvent {
 	if r.Oneway {
 		ct = 2
 	}
-	frame := buildBolt(boltFields{V2: b.v2, Ver1: 1, CmdType: ct, CmdCode: 1, Ver: 1, ID: id, Codec: 1, TimeoutOrS: 0, Class: []byte("com.verif.Req"), HeaderBlk: boltHeaderBlock(hdrs), Content: r.Body})
+	frame := buildBolt(boltFields{V2: b.v2, Ver1: 1, CmdType: ct, CmdCode: 1, Ver: 1, ID: id, Codec: 1, TimeoutOrS: uint32(r.BoltTimeout), Class: []byte("com.verif.Req"), HeaderBlk: boltHeaderBlock(hdrs), Content: r.Body})
 	_, werr := conn.Write(frame)
 	b.mu.Unlock()
 	if werr != nil {
